@@ -92,6 +92,31 @@ Definition sb_op_ok (o : bop) : Prop :=
   | _ => True
   end.
 
+Lemma sb_write_ok : forall xs b, sb_wf b ->
+  exists b', sb_write xs b = Ok b' /\ sb_wf b' /\ sb_view b' = sb_view b ++ xs.
+Proof.
+  intros xs b W. unfold sb_write. destruct (Nat.eqb_spec (length xs) 0) as [E|E].
+  - apply length_zero_iff_nil in E. subst xs. rewrite app_nil_r. eauto.
+  - destruct (sb_prepare_ok (length xs) b W) as (k & -> & A & B). cbn [rbind fst].
+    unfold sb_poke; cbn [sbdata sbsize]. rewrite app_length, repeat_length.
+    destruct (Nat.leb_spec (sbsize b + length xs) (length (sbdata b) + k)); [|lia]. cbn [rbind sbdata sbsize].
+    destruct b as [d s]; cbn [sbdata sbsize] in *.
+    destruct (sb_ext_wf d s k W B ltac:(lia)) as (W' & V').
+    destruct (sb_append_ok (d ++ repeat 0%Z k) s xs W' ltac:(rewrite app_length, repeat_length; lia)) as (W'' & V'').
+    eexists; split; [reflexivity|]. split; [assumption|]. rewrite V'', V'. reflexivity.
+Qed.
+
+Lemma sb_write_parts_ok : forall parts written b, sb_wf b ->
+  exists b', sb_write_parts parts written b = Ok (b', BOkN true (written + length (concat parts))) /\
+             sb_wf b' /\ sb_view b' = sb_view b ++ concat parts.
+Proof.
+  induction parts as [|xs tl IH]; intros written b W; cbn [sb_write_parts concat].
+  - rewrite app_nil_r, Nat.add_0_r. eauto.
+  - destruct (sb_write_ok xs b W) as (b1 & -> & W1 & V1). cbn [rbind].
+    destruct (IH (written + length xs) b1 W1) as (b' & -> & W' & V'). exists b'.
+    split; [rewrite app_length; do 3 f_equal; lia|]. split; [assumption|]. rewrite V', V1, app_assoc. reflexivity.
+Qed.
+
 Theorem sb_step_refines : forall o b, sb_wf b -> sb_op_ok o ->
   match by_step o (sb_view b) with
   | Ok (l', r) => exists b', sb_step o b = Ok (b', r) /\ sb_wf b' /\ sb_view b' = l'
@@ -191,6 +216,8 @@ Proof.
     destruct (sb_ext_wf d s k W B ltac:(lia)) as (W' & V'). eauto.
   - (* destroy *)
     eexists; split; [reflexivity|]. split; [left; auto|reflexivity].
+  - (* write(a1, a2, ...) *)
+    destruct (sb_write_parts_ok parts 0 b W) as (b' & -> & W' & V'). eauto.
 Qed.
 
 Fixpoint sb_run (ops : list bop) (b : sb) : res (sb * list bret) :=
